@@ -19,6 +19,7 @@ package main
 
 import (
 	"bytes"
+	"crypto/tls"
 	"fmt"
 	"log"
 	"net/http"
@@ -65,6 +66,9 @@ type c07Scenario struct {
 	NoRoutePrev   string     `json:"noroute_html_before"`
 	Clients       []h2Client `json:"clients"`
 	Faults        bool       `json:"faults"`
+	// TLS: fabio's listener terminates TLS and offers h2 and http/1.1 as cert.TLSConfig does; every client is then either
+	// a raw HTTP/1.1 client over TLS or an HTTP/2 client (h2Client.H2)
+	TLS bool `json:"tls_listener,omitempty"`
 	// Tasked: handler goroutines are tasks (one statement of HTTPProxy.ServeHTTP / noroute per step) and fabio's own
 	// watchNoRouteHTML, a task as well, installs the pages of Changes as the registry stand-in delivers them.
 	Tasked  bool            `json:"statement_level,omitempty"`
@@ -183,6 +187,7 @@ func c07Gen(g *simcore.Tape, thorough bool) *c07Scenario {
 			sc.Changes = append(sc.Changes, c07PageChange{HTML: p, Page: c07PageDesc(p), Anytime: g.Chance(25)})
 		}
 	}
+	sc.TLS = !sc.Tasked && g.Chance(50)
 	maxBody := 20000
 	if thorough {
 		maxBody = 200000
@@ -192,6 +197,13 @@ func c07Gen(g *simcore.Tape, thorough bool) *c07Scenario {
 	for c := 0; c < nc; c++ {
 		cl := h2Client{Addr: fmt.Sprintf("192.0.2.%d:%d", 10+c, 5000+100*c)}
 		n := g.Range(1, 3)
+		if sc.TLS {
+			cl.TLS = true
+			if cl.H2 = g.Chance(70); cl.H2 {
+				cl.Streams = g.Range(1, 4)
+				n = g.Range(1, 5)
+			}
+		}
 		for k := 0; k < n; k++ {
 			rq := h2Req{ID: fmt.Sprintf("r%d", id), Host: simcore.Pick(g, []string{"fabio.sim", "www.example.com", "www.example.com:8080", "Mixed.Example.COM"})}
 			id++
@@ -224,6 +236,13 @@ func c07Gen(g *simcore.Tape, thorough bool) *c07Scenario {
 			}
 			rq.BodyLen = len(rq.Body)
 			rq.Chunks = c07GenChunks(g, len(rq.Body)+100)
+			if cl.H2 {
+				rq.SplitCookie = g.Chance(50)
+				rq.EndEmpty = g.Chance(15)
+				if g.Chance(10) {
+					rq.SplitHead = g.Range(1, 60)
+				}
+			}
 			rs := h2Resp{Status: simcore.Pick(g, c07Statuses)}
 			rs.Headers = c07GenHeaders(g, c07RespHdrNames, 5)
 			if !h2NoBody(rq.Method, rs.Status) {
@@ -240,7 +259,9 @@ func c07Gen(g *simcore.Tape, thorough bool) *c07Scenario {
 				// outside fabio and would make runs irreproducible, so chunked replies always carry a body and a type.
 				// ... and stay below the simnet window: ReverseProxy copies them under its flush mutex, a Write that
 				// blocks on a full window would hold that mutex and stall the bubble (library lock, not durable).
-				rs.Chunked = len(rs.Body) > 0 && len(rs.Body) <= 48000 && g.Chance(40)
+				// ... and are not used behind a TLS listener: the early flush is a TLS record (an HTTP/2 frame) of its own, so
+				// the race would decide the number of bytes on the wire.
+				rs.Chunked = len(rs.Body) > 0 && len(rs.Body) <= 48000 && g.Chance(40) && !sc.TLS
 				if rs.Chunked {
 					hasCT := false
 					for _, h := range rs.Headers {
@@ -267,7 +288,9 @@ func c07Gen(g *simcore.Tape, thorough bool) *c07Scenario {
 				case 1:
 					rs.ResetAt = 1 + g.Intn(60+len(rs.Body))
 				case 2:
-					if len(rq.Body) > 0 {
+					// (an HTTP/2 client resets the stream after that many body bytes; fabio answers a request without a
+					// route before any of its body is sent)
+					if len(rq.Body) > 0 && !(cl.H2 && rq.Route < 0) {
 						rq.Abort = 20 + g.Intn(len(rq.Body)+80)
 					}
 				}
@@ -523,7 +546,51 @@ func runC07(r *simcore.Run) {
 		defer log.SetOutput(prev)
 		r.Probe("statement_level_run")
 	}
-	e.serve(nil)
+	if !sc.Tasked {
+		// Event-level runs: the handler goroutines are tasks as well, but no yield site is live, so a handler runs as a
+		// whole once the driver has released it. As tasks they see the simulation's own sync.Pool (empty at the start
+		// of the run, last in first out) instead of the process-wide one: what a pooled object carries from one
+		// request into the next is then decided inside the run and replays in a fresh process.
+		e.wrap = func(h http.Handler) http.Handler {
+			return http.HandlerFunc(func(w http.ResponseWriter, req *http.Request) {
+				id := req.Header.Get("X-Sim-Id")
+				e.mu.Lock()
+				rq := e.script[id]
+				e.mu.Unlock()
+				// Go's HTTP/2 server does not wait for the HEADERS frame of a response without any header field of the
+				// handler's before it takes the first DATA frame: whether the two share a flush (a TLS record) is a race
+				// inside the server. The no-route answer is the one such response here, so the listener's handler chain
+				// sets a field of its own on it.
+				if req.ProtoMajor == 2 && rq != nil && rq.Route < 0 {
+					w.Header().Set("X-Sim-Listener", "h2")
+				}
+				// http.ErrAbortHandler is passed on untouched, any other panic is recorded by the task layer
+				abort := false
+				defer func() {
+					if abort {
+						panic(http.ErrAbortHandler)
+					}
+				}()
+				defer simhook.Adopt("h/" + id)()
+				defer func() {
+					if v := recover(); v != nil {
+						if v == http.ErrAbortHandler {
+							abort = true
+							return
+						}
+						panic(v)
+					}
+				}()
+				h.ServeHTTP(w, req)
+			})
+		}
+	}
+	if sc.TLS {
+		e.serve(&tls.Config{Certificates: []tls.Certificate{zzSelfSigned()}, NextProtos: []string{"h2", "http/1.1"}})
+		r.Probe("tls_listener")
+	} else {
+		e.serve(nil)
+	}
 	for _, rt := range sc.Routes {
 		e.upstream(rt.Key, simnet.ListenOpts{}, nil)
 	}
@@ -540,13 +607,20 @@ func runC07(r *simcore.Run) {
 	}
 	r.Nontrivial()
 	for ci := range sc.Clients {
-		for qi := range sc.Clients[ci].Reqs {
-			c07Check(r, e, sc, obs, &sc.Clients[ci].Reqs[qi])
+		cl := &sc.Clients[ci]
+		if cl.H2 {
+			r.Probe("h2_client")
+			if cl.Streams > 1 && len(cl.Reqs) > 1 {
+				r.Probe("h2_client_concurrent_streams")
+			}
+		}
+		for qi := range cl.Reqs {
+			c07Check(r, e, sc, obs, cl, &cl.Reqs[qi])
 		}
 	}
 }
 
-func c07Check(r *simcore.Run, e *h2Env, sc *c07Scenario, obs *c07PageObs, rq *h2Req) {
+func c07Check(r *simcore.Run, e *h2Env, sc *c07Scenario, obs *c07PageObs, cl *h2Client, rq *h2Req) {
 	res := e.results[rq.ID]
 	seen := e.seen[rq.ID]
 	faulted := rq.Abort > 0 || rq.Resp.ResetAt != 0
@@ -554,6 +628,16 @@ func c07Check(r *simcore.Run, e *h2Env, sc *c07Scenario, obs *c07PageObs, rq *h2
 	if res == nil {
 		r.Trouble("no result for %s", rq.ID)
 		return
+	}
+	if cl.H2 {
+		what += " over HTTP/2"
+		// a response to HEAD and a 204/304 response have no content: an HTTP/2 client sees DATA frames if there were any
+		if res.Err == nil && h2NoBody(rq.Method, res.Status) && len(res.Body) > 0 {
+			r.Fail("response", "content-on-bodiless-response", "%s: status %d came with %d bytes of content", what, res.Status, len(res.Body))
+		}
+		if rq.Abort > 0 {
+			r.Fault("h2_client_stream_reset")
+		}
 	}
 	if rq.Route < 0 {
 		// no route: configured status + page, no upstream contacted
@@ -614,7 +698,9 @@ func c07Check(r *simcore.Run, e *h2Env, sc *c07Scenario, obs *c07PageObs, rq *h2
 			raw := h2RenderResponse(rq.Method, &rq.Resp)
 			headCut = n < 0 || n < bytes.Index(raw, []byte("\r\n\r\n"))+4
 		}
-		if res.Err == nil && res.BodyErr == nil && res.Status == rq.Resp.Status && !headCut && !h2NoBody(rq.Method, res.Status) {
+		// (a response can only be the upstream's if the upstream received the request: fabio's own gateway error for a
+		// request that never got through may carry the very status the script had in store)
+		if len(seen) > 0 && res.Err == nil && res.BodyErr == nil && res.Status == rq.Resp.Status && !headCut && !h2NoBody(rq.Method, res.Status) {
 			if !bytes.Equal(res.Body, rq.Resp.Body) {
 				r.Fail("response", "body", "%s: response completed but body differs (%d vs %d bytes)", what, len(res.Body), len(rq.Resp.Body))
 			}
@@ -685,6 +771,9 @@ func c07Check(r *simcore.Run, e *h2Env, sc *c07Scenario, obs *c07PageObs, rq *h2
 	sent := h2EndToEnd(h2HeaderList(rq.Headers), map[string]bool{"Accept-Encoding": false})
 	got := h2EndToEnd(s.Header, nil)
 	for k, v := range sent {
+		if k == "Cookie" && strings.Join(got[k], "; ") == strings.Join(v, "; ") {
+			continue // cookie-pairs may travel as one field or as several (RFC 9113 8.2.3): the concatenation counts
+		}
 		if fmt.Sprint(got[k]) != fmt.Sprint(v) {
 			r.Fail("request", "header", "%s: header %s sent %q, upstream received %q", what, k, v, got[k])
 		}
